@@ -829,8 +829,8 @@ if __name__ == "__main__":
         trusted=[
             "Lean 4.33 kernel; axioms ⊆ {propext, Classical.choice, Quot.sound} (audited per run)",
             "hand-written model of the batch plumbing in Decode.lean; tied to /repo by comparison on the explored batches only",
-            "the network is sample-wise (a frame's maps depend on its own image only): true of the stubs by construction; "
-            "for real conv nets in eval mode by design, not checked here",
+            "the network is sample-wise IN EVAL MODE (law `eval_indep` of BatchNorm/Dropout); that the wrappers run it in eval "
+            "mode and leave its running statistics alone is observed on stubs with BatchNorm+Dropout under four call histories",
             "find_local_peaks returns a frame's peaks in row-major cell order, one per separated animal (C06); the per-frame "
             "peak list the model receives is the harness's own reading of the rendered centroid map",
             "torch.topk order among exactly equal values is unspecified: ties are skipped and counted",
